@@ -318,7 +318,7 @@ def stage_params(f):
     return d
 
 
-def run_spec(spec, mode="run", probes=None):
+def run_spec(spec, mode="run", probes=None, shared=None):
     """runs the configuration; returns {"spec", "events", "mutated", "error", "summary"...}"""
     import random as pyrandom
     import warnings
@@ -338,7 +338,7 @@ def run_spec(spec, mode="run", probes=None):
             rec.emit(e="call", lvl=level, deme=rec.cur(), x=gbits(xx), v=fb(v))
             return v
         return g
-    cfg, info = gen.build(spec, objective_wrapper=ow)
+    cfg, info = gen.build(spec, objective_wrapper=ow, session=shared)
     cfg.gsc = RecGSC(cfg.gsc, rec)
     for lv in cfg.levels:
         lv.lsc = RecLSC(lv.lsc, rec)
